@@ -142,11 +142,12 @@ let backoff_line = function
   | _ -> failwith "backoff <min> <max> <n>"
 
 (* one script = a model state, the observations so far and the number of polls per association *)
-type runner = { mutable st : ms_mstate; mutable out : ms_obs list; npolls : int array }
+type item = Obs of ms_obs | Line of (int * int * string)
+type runner = { mutable st : ms_mstate; mutable out : item list; npolls : int array }
 
 let feed (r : runner) ev =
   let (st1, o) = ms_mstep (Lazy.force fuel) r.st ev in
-  r.st <- st1; r.out <- List.rev_append o r.out
+  r.st <- st1; r.out <- List.rev_append (List.map (fun x -> Obs x) o) r.out
 
 let start_runner (s : script) : runner =
   let n = cfg_int s "n" 1 in
@@ -161,7 +162,14 @@ let start_runner (s : script) : runner =
 
 let exec_op (r : runner) (op : string list) : unit =
   (match op with
-   | ["rx"; from; h] -> let b = unhex h in if b <> [] then feed r (MsERx (n_of_int (int_of_string from), parse_rx b))
+   | ["rx"; from; h] ->
+     let b = unhex h in
+     (* the harness hands a fragment to the master only while it is connected, and marks it *)
+     if b <> [] && (match r.st.ms_m_phase with MsPDown -> false | _ -> true) then begin
+       let t = int_of_z r.st.ms_m_now in
+       r.out <- Line (t, 0, Printf.sprintf "rx %d %s" t from) :: r.out;
+       feed r (MsERx (n_of_int (int_of_string from), parse_rx b))
+     end
    | ["sleep"; d] -> feed r (MsETick (z_of_string d))
    | ["add_poll"; a; period; m] ->
      let a = int_of_string a in
@@ -190,7 +198,7 @@ let run_msched_engine (s : script) : string list =
   else begin
     let r = start_runner s in
     List.iter (exec_op r) s.ops;
-    let rendered = List.filter_map render (List.rev r.out) in
+    let rendered = List.filter_map (function Obs o -> render o | Line l -> Some l) (List.rev r.out) in
     let indexed = List.mapi (fun i (t, stream, l) -> (t, stream, i, l)) rendered in
     let sorted = List.sort compare indexed in
     let lines = List.map (fun (_, _, _, l) -> l) sorted in
